@@ -27,7 +27,7 @@ ASSUMPTIONS = [
 BOUNDS = {"quick": dict(nodes=5, depth=2, cores=[2, 3], trips=[0, 1, 2]), "thorough": dict(nodes=6, depth=3, cores=[2, 3, 4], trips=[0, 1, 2])}
 CASE_TIMEOUT = 60
 
-BUFS = ["%a : memref<8xi32>", "%b : memref<8xi32>", "%c : memref<8xi32>"]
+BUFS = ["%a : memref<8xi32>", "%b : memref<8xi32>", "%c : memref<8xi32>", "%d8 : memref<8xi8>"]
 GEN = ('linalg.generic {{indexing_maps = [affine_map<(d0) -> (d0)>, affine_map<(d0) -> (d0)>], iterator_types = ["parallel"]}} '
        "ins({i} : memref<8xi32>) outs({o} : memref<8xi32>) attrs = {{verif.id = {t} : i32}} {{\n^bb0(%x{t} : i32, %y{t} : i32):\n  linalg.yield %x{t} : i32\n}}")
 STREAM = ('"dart.operation"({i}, {o}) <{{patterns = [affine_map<(d0) -> (d0)>, affine_map<(d0) -> (d0)>], accelerator = "snax_alu", operandSegmentSizes = array<i32: 1, 1>}}> ({{\n'
@@ -41,8 +41,21 @@ XDMA = ('"dart.operation"({i}, {i}, {o}) <{{patterns = [affine_map<(d0) -> (d0)>
         "}}) {{verif.id = {t} : i32}} : (memref<8xi32>, memref<8xi32>, memref<8xi32>) -> ()")
 
 
+XDMA1 = ('"dart.operation"({i}, {o}) <{{patterns = [affine_map<(d0) -> (d0)>, affine_map<(d0) -> (d0)>], accelerator = "snax_xdma", operandSegmentSizes = array<i32: 1, 1>}}> ({{\n'
+         "^bb0(%za{t} : !dart.stream<{ti}>, %zb{t} : !dart.stream<{to}>):\n"
+         '  %zg{t} = "dart.generic"(%za{t}) <{{library_call = "snax_xdma"}}> ({{\n  ^bb1(%ze{t} : {ti}, %zo{t} : {to}):\n'
+         "    %zk{t} = kernel.rescale %ze{t} {{input_zp = 0 : i32, output_zp = 0 : i32, multiplier = array<i32: 1>, shift = array<i32: 9>, max_int = 127 : i32, min_int = -128 : i32, double_round = false}} : ({ti}) -> {to}\n"
+         "    dart.yield %zk{t} : {to}\n  }}) : (!dart.stream<{ti}>) -> !dart.stream<{to}>\n  dart.yield %zg{t} : !dart.stream<{to}>\n"
+         "}}) {{verif.id = {t} : i32}} : (memref<8x{ti}>, memref<8x{to}>) -> ()")
+
+
 def leaf_emit(leaf, tag, ivs):
     k = leaf[0]
+    if k in ("Z", "W"):
+        # snax_xdma rescale down (i32 -> i8) / up (i8 -> i32): both are extension kernels (data-mover core)
+        if k == "Z":
+            return XDMA1.format(i="%a", o="%d8", t=tag, ti="i32", to="i8").split("\n")
+        return XDMA1.format(i="%d8", o="%a", t=tag, ti="i8", to="i32").split("\n")
     if k in ("X", "Y"):
         # snax_xdma streaming op: X = a kernel one of the DMA extensions provides (data-mover core), Y = another kernel (no extension: not dispatched)
         kern = f"%xk{tag} = kernel.add %xe{tag}, %xf{tag} : i32, i32 -> i32" if k == "X" else f"%xk{tag} = kernel.mul %xe{tag}, %xf{tag} : i32, i32 -> i32"
@@ -70,8 +83,8 @@ def space(tier):
     g2 = ST.Grammar([("D", "a", "b"), ("S", "b", "c"), ("O",)], controls=("FOR", "IF"), max_depth=2)
     progs += [p for p in g2.programs(3) if ST.count(p, lambda s: s[0] == "S") >= 1]
     # a slice with snax_xdma streaming ops
-    g4 = ST.Grammar([("X", "a", "b"), ("Y", "a", "b"), ("C", "b", "c"), ("O",)], controls=("FOR", "IF"), max_depth=2)
-    progs += [p for p in g4.programs(3) if ST.count(p, lambda s: s[0] in ("X", "Y")) >= 1]
+    g4 = ST.Grammar([("X", "a", "b"), ("Y", "a", "b"), ("Z",), ("W",), ("C", "b", "c"), ("O",)], controls=("FOR", "IF"), max_depth=2)
+    progs += [p for p in g4.programs(3) if ST.count(p, lambda s: s[0] in ("X", "Y", "Z", "W")) >= 1]
     cases = [(p, n, None) for p in progs for n in b["cores"]]
     # two-block functions (cf.br): every split point of every program with <= 4 top-level-visible nodes and >= 2 top-level statements
     g3 = ST.Grammar(leaves, controls=("FOR", "IF"), max_depth=1)
@@ -114,7 +127,7 @@ def run(mod, fname, args, core):
         kind = KIND[name]
         if name == "dart.operation" and op.accelerator.data == "snax_xdma":
             kop = op.body.block.first_op.body.block.first_op
-            kind = "D" if kop.name == "kernel.add" else "O"
+            kind = "D" if kop.name in ("kernel.add", "kernel.rescale") else "O"
         vals = tuple(it.get(o) for o in op.operands if kind == "O" and name == "test.op")
         ev.append((kind, ident.value.data if ident is not None else None, vals))
         return [0 for _ in op.results]
@@ -192,7 +205,7 @@ def evaluate(case, only=None) -> CaseResult:
         for conds in itertools.product([1, 0], repeat=em.nif):
             if only is not None and only != [list(trips), list(conds)]:
                 continue
-            args = [None, None, None] + list(conds) + list(trips)
+            args = [None] * len(BUFS) + list(conds) + list(trips)
             ref, s0 = run(base, "f", args, 0)
             r.transitions += s0
             r.states += len(ref)
